@@ -181,3 +181,17 @@ Proof.
   all: change (2 ^ 32) with 4294967296; unfold lenN; rewrite map_length; rewrite N.mod_small by (unfold lenN in Hnp; lia).
   all: destruct (s1_title s), (s1_mail s); reflexivity.
 Qed.
+
+(* ---------- the whole query ---------- *)
+Theorem gs1_query_roundtrip : forall port s,
+  wf_s1 s = true -> Forall pair_ok (s1_vars s) -> nodupb (map fst (s1_vars s)) = true ->
+  s1_qid s <= usize_max' ->
+  Forall (fun d => (length d <= 1024)%nat) (s1_script s) -> N.of_nat (length (s1_script s)) < 4294967296 ->
+  fst (gs1_query port None (script_net (s1_script s))) = Ok (s1_expected s).
+Proof.
+  intros port s Hwf Hok Hnd Hq Hsz Hn.
+  pose proof (gs1_vars_roundtrip port s Hok Hq Hsz Hn) as Hv.
+  rewrite fold_ins_fresh in Hv; [|apply forallb_forall; intros; reflexivity|exact Hnd]. cbn [app] in Hv.
+  unfold gs1_query, mbind. destruct (gs1_query_vars port None (script_net (s1_script s))) as [o n'] eqn:E. cbn [fst] in Hv. subst o.
+  unfold mlift. cbn [fst]. apply gs1_build_ok. exact Hwf.
+Qed.
